@@ -124,6 +124,7 @@ def plan(tier, seed):
     for name, cont in (("quad", "u,p,J"), ("hex", "u,p,J")):
         for first in range(12):
             cases.append(dict(key=f"dict/{name}/{cont}@F/first={first}", kind="dict", mesh=name, cont=cont, layout="F", first=first, size=2, seed=seed, cost=10))
+    cases.append(dict(key="composite", kind="composite", seed=seed, cost=3))
     for lc in ("symmetry", "uniaxial", "biaxial", "shear"):
         for name in ("quad", "hex-plain"):
             cases.append(dict(key=f"loadcase/{lc}/{name}", kind="loadcase", lc=lc, mesh=name, seed=seed, cost=5))
@@ -571,5 +572,62 @@ def run_loadcase(case):
     return c.result(dict(case=case["key"]))
 
 
+def run_composite(case):
+    """bodies on cell ranges of one mesh whose mixed containers are numbered like the global container
+    (FieldsMixed(sub-region, n=3, offset=first cell, npoints=all cells)): every range [first, last) of 6 cells (21 bodies).
+    Same field layout as the global container, the J-unknown of cell c at offset_J + c (unit integrand), partition({})
+    prescribes exactly the unknowns of points without cells of that body, container + global vector round trip."""
+    import felupe as fem
+
+    c = Ctx(case["key"])
+    mesh = fem.Cube(b=(6, 1, 1), n=(7, 2, 2))
+    nc, dim = mesh.ncells, mesh.dim
+    region = fem.RegionHexahedron(mesh)
+    glob = fem.FieldsMixed(region, n=3, npoints=nc)
+    sizes = [mesh.npoints * dim, nc, nc]
+    starts = np.concatenate([[0], np.cumsum(sizes)])
+    N = int(starts[-1])
+    c.eq("global/fieldsizes", "fieldsizes of the global container", list(glob.fieldsizes), sizes)
+    for first in range(nc):
+        for last in range(first + 1, nc + 1):
+            lab = f"cells[{first}:{last}]"
+            sub = mesh.copy()
+            sub.update(cells=mesh.cells[first:last])
+            sr = fem.RegionHexahedron(sub)
+            body = fem.FieldsMixed(sr, n=3, offset=first, npoints=nc)
+            c.trans += 1
+            c.states += 1
+            if not c.eq(lab + "/fieldsizes", "field layout of a body container = layout of the global container", list(body.fieldsizes), sizes):
+                continue
+            c.eq(lab + "/offsets", "offsets of a body container", list(body.offsets), list(starts[1:3]))
+            nq, ncb = sr.dV.shape
+            for fi in (1, 2):
+                fun = [None, None, None]
+                fun[fi] = np.ones((1, nq, ncb))
+                vec = fem.IntegralForm(fun, v=body, dV=sr.dV, grad_v=[True, False, False]).assemble()
+                vec.resize(N, 1)
+                vec = vec.toarray().ravel()
+                exp = np.zeros(N)
+                exp[starts[fi] + np.arange(first, last)] = sr.dV.sum(0)
+                c.traces += 1
+                if np.abs(vec - exp).max() > 1e-13:
+                    c.bad(lab + f"/unit-form/field{fi}", "the dual unknown of cell c sits at offset(field) + c (unit integrand per field)", np.flatnonzero(vec).tolist(), np.flatnonzero(exp).tolist())
+            used = np.unique(mesh.cells[first:last])
+            ufix = np.setdiff1d(np.arange(mesh.npoints), used)
+            dfix = np.setdiff1d(np.arange(nc), np.arange(first, last))
+            exp0 = np.sort(np.concatenate([(dim * ufix.reshape(-1, 1) + np.arange(dim)).ravel(), starts[1] + dfix, starts[2] + dfix])).astype(int)
+            d0, d1 = fem.dof.partition(body, {})
+            c.eq(lab + "/dof0", "partition({}) prescribes exactly the unknowns of points without cells of this body (global numbering)", d0, exp0)
+            c.eq(lab + "/cover", "dof0 and dof1 cover all unknowns once", np.sort(np.concatenate([d0, d1])), np.arange(N))
+            dx = np.arange(N, dtype=float) + 1.0
+            try:
+                new = body + dx
+                c.eq(lab + "/add", "container + global vector changes unknown k by entry k", fem.math.values(new) - fem.math.values(body), dx)
+            except Exception as ex:  # noqa
+                c.bad(lab + "/add/exception", "container + global vector raised", repr(ex)[:120], "a container")
+            c.nontrivial.append(lab)
+    return c.result(dict(case=case["key"], bodies=nc * (nc + 1) // 2))
+
+
 def run(case):
-    return {"numbering": run_numbering, "single": run_single, "dict": run_dict, "loadcase": run_loadcase}[case["kind"]](case)
+    return {"numbering": run_numbering, "single": run_single, "dict": run_dict, "loadcase": run_loadcase, "composite": run_composite}[case["kind"]](case)
